@@ -1652,7 +1652,8 @@ func parseFloatValue(s string) (float64, error) {
 	if !IsValidNumber(s) {
 		return 0, fmt.Errorf("invalid field value")
 	}
-	f := fastfloat.ParseBestEffort(s)
+	// ParseBestEffort does not understand a leading '+' (it answers 0)
+	f := fastfloat.ParseBestEffort(strings.TrimPrefix(s, "+"))
 	if math.IsNaN(f) || math.IsInf(f, 0) {
 		return 0, fmt.Errorf("invalid number")
 	}
